@@ -95,7 +95,7 @@ fn gen(rng: &mut Rng, _i: u64) -> String {
 		};
 		let al = *rng.pick(&[1u64, 1, 2, 4, 8]);
 		let sz = *rng.pick(&[1u64, 2, 4, 8]);
-		match rng.below(16) {
+		match rng.below(19) {
 			0 => qs.push(format!("r2f:{}", a)),
 			1 => qs.push(format!("f2r:{}", if rng.chance(1, 16) { rng.next() } else { a as u64 })),
 			2 | 3 => qs.push(format!("sl:{}:{}:{}", a, mins(rng, len), al)),
@@ -110,7 +110,9 @@ fn gen(rng: &mut Rng, _i: u64) -> String {
 			12 => qs.push(format!("cstr:{}", a)),
 			13 => qs.push(format!("vderva:{}:{}", va(rng, a), sz)),
 			14 => qs.push(format!("vsent:{}:{}:{}", va(rng, a), sz, 0)),
-			_ => qs.push(format!("vcstr:{}", va(rng, a))),
+			15 => qs.push(format!("vcstr:{}", va(rng, a))),
+			16 | 17 => { let (esz, eal) = *rng.pick(&[(6u64, 2u64), (12, 4), (5, 1), (24, 8)]); let n = match rng.below(6) { 0 => 0, 1 => u64::MAX / 4, _ => rng.below(12) }; if rng.chance(1, 2) { qs.push(format!("arrx:{}:{}:{}:{}", a, esz, eal, n)) } else { qs.push(format!("varrx:{}:{}:{}:{}", va(rng, a), esz, eal, n)) } },
+			_ => qs.push(format!("vcopy:{}:{}", va(rng, a), sz)),
 		}
 	}
 	// ragged tails: a terminated read whose available bytes end in the middle of an element, with the
@@ -219,6 +221,23 @@ macro_rules! run_queries {
 				"arr" => {
 					macro_rules! t { ($t:ty) => {{
 						match view.derva_slice::<$t>(n(1) as u32, n(3) as usize) { Ok(x) => { assert!(x.as_ptr() as usize % std::mem::align_of::<$t>() == 0, "harness: misaligned slice returned"); reg(x.as_ptr() as *const u8, std::mem::size_of_val(x)) }, Err(e) => format!("e:{:?}", e) }
+					}}}
+					match n(2) { 1 => t!(u8), 2 => t!(u16), 4 => t!(u32), _ => t!(u64) }
+				},
+				"arrx" | "varrx" => {
+					let byva = p[0] == "varrx";
+					macro_rules! t { ($t:ty) => {{
+						let r = if byva { view.deref_slice::<$t>(Ptr::from(n(1) as $va_t), n(4) as usize) } else { view.derva_slice::<$t>(n(1) as u32, n(4) as usize) };
+						match r { Ok(x) => { assert!(x.as_ptr() as usize % std::mem::align_of::<$t>() == 0, "harness: misaligned slice returned"); reg(x.as_ptr() as *const u8, std::mem::size_of_val(x)) }, Err(e) => format!("e:{:?}", e) }
+					}}}
+					match n(2) { 6 => t!([u16; 3]), 12 => t!([u32; 3]), 5 => t!([u8; 5]), _ => t!([u64; 3]) }
+				},
+				"vcopy" => {
+					macro_rules! t { ($t:ty) => {{
+						let r = view.deref_copy::<$t>(Ptr::from(n(1) as $va_t));
+						let mut dest: [$t; 1] = [0; 1];
+						let r2 = view.deref_into(Ptr::from(n(1) as $va_t), &mut dest);
+						match (r, r2) { (Ok(x), Ok(())) if x == dest[0] => format!("ok:{}", x as u64), (Ok(_), Ok(())) => "harness: deref_copy and deref_into disagree".to_string(), (Err(e), Err(e2)) if e == e2 => format!("e:{:?}", e), (a, b) => format!("mixed:{:?}:{:?}", a.map(|x| x as u64), b) }
 					}}}
 					match n(2) { 1 => t!(u8), 2 => t!(u16), 4 => t!(u32), _ => t!(u64) }
 				},
